@@ -284,6 +284,7 @@ type layoutCase struct {
 	Mode    []string `json:"mode"`    // extra argv
 	Origin  string   `json:"origin"`  // corpus | generated
 	Context string   `json:"context"` // what the line after the boundary starts with
+	Text    string   `json:"text"`    // the inserted line (blank: whitespace only; comment: starts with #)
 }
 
 var strLitRe = regexp.MustCompile(`"([A-Za-z][A-Za-z ]{2,})"`)
@@ -297,11 +298,14 @@ func applyLayout(lc *layoutCase) (edited string, from int, k int, ok bool) {
 			return "", 0, 0, false
 		}
 		ins := []string{""}
-		switch lc.Edit {
-		case "comment":
+		if lc.Text != "" || lc.Edit == "blank" {
+			ins = []string{lc.Text}
+		}
+		switch {
+		case lc.Edit == "comment" && lc.Text == "":
 			ins = []string{"  # layout comment"}
-		case "two":
-			ins = []string{"", "# another comment"}
+		case lc.Edit == "two":
+			ins = []string{lc.Text, "# another comment"}
 		}
 		out := append([]string{}, lines[:lc.Line-1]...)
 		out = append(out, ins...)
@@ -450,6 +454,17 @@ func init() {
 			r := c.RNG.Sub(6)
 			modes := [][]string{{}, {"-i"}}
 			edits := []string{"blank", "comment", "two"}
+			blankTexts := []string{"", "", "   ", "\t", " \t "}
+			commentTexts := []string{"#", "  #", "# c", "#c", "##", "  # layout comment", "# ti-doc: note", "# ti-for-llm: note", "#{", "# 'quote", "# \"dq", "# end", "# def x", "#\\", "# =begin", "#!x"}
+			textFor := func(edit string) string {
+				switch edit {
+				case "blank":
+					return Pick(r, blankTexts)
+				case "comment":
+					return Pick(r, commentTexts)
+				}
+				return Pick(r, append(append([]string{}, blankTexts...), commentTexts...))
+			}
 			// corpus programs
 			nCorpus := c.N(60, len(items))
 			for k := 0; k < nCorpus; k++ {
@@ -467,7 +482,8 @@ func init() {
 					if c.Quick() {
 						b = Pick(r, bs)
 					}
-					jobs = append(jobs, &layoutCase{Source: it.Source, Edit: Pick(r, edits), Line: b, Mode: Pick(r, modes), Origin: "corpus", Context: lineContext(it.Source, b)})
+					ed := Pick(r, edits)
+					jobs = append(jobs, &layoutCase{Source: it.Source, Edit: ed, Text: textFor(ed), Line: b, Mode: Pick(r, modes), Origin: "corpus", Context: lineContext(it.Source, b)})
 				}
 				for _, e := range []string{"drop-final-newline", "double-final-newline"} {
 					jobs = append(jobs, &layoutCase{Source: it.Source, Edit: e, Mode: Pick(r, modes), Origin: "corpus", Context: "eof"})
@@ -491,7 +507,8 @@ func init() {
 					if c.Quick() {
 						b = Pick(r, bs)
 					}
-					jobs = append(jobs, &layoutCase{Source: src, Edit: Pick(r, edits), Line: b, Mode: Pick(r, modes), Origin: "generated", Context: lineContext(src, b)})
+					ed := Pick(r, edits)
+					jobs = append(jobs, &layoutCase{Source: src, Edit: ed, Text: textFor(ed), Line: b, Mode: Pick(r, modes), Origin: "generated", Context: lineContext(src, b)})
 				}
 				for i, l := range rd.Lines {
 					if strLitRe.MatchString(l.Text) && !l.InLiteral && r.Chance(1, 2) {
